@@ -226,3 +226,37 @@ Definition tar_zip_entry (dir : str) (e : entry) : entry :=
      e_data := match e_kind e with KDir => [] | _ => e_data e end |}.
 
 Definition tar_zip (dir : str) (es : list entry) : list entry := map (tar_zip_entry dir) es.
+
+(** NOT the deployed code: [UnzipDir] with a per-call memo [made] of
+    directories "already checked and created", consulted both to skip
+    [MkdirAll] and to skip the containment test; a directory entry records its
+    own name and its parent.  Used to show what deciding containment per
+    entry, from the entry's own resolved name, is relied upon for
+    ([memo_polluted_by_root_entry_refuted] in Arch/Round3.v). *)
+Definition in_made (made : list str) (p : str) : bool := existsb (str_eqb p) made.
+
+Fixpoint unzip_entries_memo (c : cfg) (f : fs) (dir : str) (made : list str) (es : list entry)
+  : xres * fs :=
+  match es with
+  | [] => (XOk, f)
+  | e :: rest =>
+      let name := filepath_join [dir; e_name e] in
+      let parent := dir_of name in
+      if negb (in_made made parent) && negb (in_dir dir name) then (XRefused, f)
+      else
+        match e_kind e with
+        | KDir =>
+            let '(ok, f1) := mkdir_all c f name (e_perm e) in
+            if ok then unzip_entries_memo c f1 dir (name :: parent :: made) rest else (XOsErr, f1)
+        | _ =>
+            let '(ok, f1) := if in_made made parent then (true, f)
+                             else mkdir_all c f parent perm_dir_default in
+            if negb ok then (XOsErr, f1)
+            else match open_trunc c f1 name perm_create_default with
+                 | None => (XOsErr, f1)
+                 | Some (k, _, f2) =>
+                     unzip_entries_memo c (set f2 k (NFile (N.land (e_perm e) perm_mask) (e_data e))) dir
+                                        (parent :: made) rest
+                 end
+        end
+  end.
